@@ -46,7 +46,7 @@ vbuild() {
   mkdir -p $VERIF/bin $VERIF/.ov
   local ov=$VERIF/.ov/$eng.$$.json
   mkoverlay $ov "$@"
-  (cd $REPO && go build -tags verif -overlay $ov -o $VERIF/bin/$eng ./internal/verif/cmd/$eng)
+  (cd $REPO && go build $VBUILD_FLAGS -tags verif -overlay $ov -o $VERIF/bin/${VBUILD_OUT:-$eng} ./internal/verif/cmd/$eng)
   local rc=$?
   rm -f $ov
   return $rc
